@@ -33,6 +33,9 @@ pub enum Scen {
     /// channel 1 open, funding and mutual close confirmed, 98 further blocks, forget requested:
     /// two more blocks and a heartbeat prune it
     Prunable,
+    /// like `Swept`, but only the HTLC outputs and their second level are spent: the node's main
+    /// output of the confirmed commitment is still unswept
+    HtlcsSwept,
 }
 
 #[derive(Clone, Debug, Serialize, Deserialize)]
@@ -46,6 +49,12 @@ pub struct NodeCfg {
     /// channels get a permanent id that differs from the original one
     #[serde(default)]
     pub perm: bool,
+    /// unilateral scenarios: anchors (zero-fee HTLC) channel instead of static-remotekey
+    #[serde(default)]
+    pub anchors: bool,
+    /// unilateral scenarios: the counterparty's commitment confirms instead of the holder's
+    #[serde(default)]
+    pub cp_close: bool,
 }
 
 #[derive(Clone, Copy, Debug, PartialEq, Eq, Hash, PartialOrd, Ord, Serialize, Deserialize)]
@@ -141,22 +150,22 @@ impl NodeModel {
         }
         match t {
             Tx::Fund => {
-                if spent(&f.wallet_in) || matches!(self.cfg.scen, Scen::Mutual | Scen::Unilateral | Scen::Swept | Scen::Prunable) {
+                if spent(&f.wallet_in) || matches!(self.cfg.scen, Scen::Mutual | Scen::Unilateral | Scen::Swept | Scen::HtlcsSwept | Scen::Prunable) {
                     None
                 } else {
                     Some(f.funding_tx.clone())
                 }
             }
             Tx::DoubleSpend => {
-                if spent(&f.wallet_in) || matches!(self.cfg.scen, Scen::Mutual | Scen::Unilateral | Scen::Swept | Scen::Prunable) {
+                if spent(&f.wallet_in) || matches!(self.cfg.scen, Scen::Mutual | Scen::Unilateral | Scen::Swept | Scen::HtlcsSwept | Scen::Prunable) {
                     None
                 } else {
                     Some(simple_tx(vec![f.wallet_in], vec![(CHANNEL_VALUE, unrelated_script(1))], 7))
                 }
             }
             Tx::Mutual => {
-                let funded = get(Tx::Fund).is_some() || matches!(self.cfg.scen, Scen::Unilateral | Scen::Mutual | Scen::Swept | Scen::Prunable);
-                if !funded || spent(&f.setup.funding_outpoint) || matches!(self.cfg.scen, Scen::Unilateral | Scen::Swept) {
+                let funded = get(Tx::Fund).is_some() || matches!(self.cfg.scen, Scen::Unilateral | Scen::Mutual | Scen::Swept | Scen::HtlcsSwept | Scen::Prunable);
+                if !funded || spent(&f.setup.funding_outpoint) || matches!(self.cfg.scen, Scen::Unilateral | Scen::Swept | Scen::HtlcsSwept) {
                     return None;
                 }
                 let mut tx = simple_tx(vec![f.setup.funding_outpoint], vec![(f.c0.to_holder - 500, unrelated_script(2))], 0);
@@ -164,11 +173,11 @@ impl NodeModel {
                 Some(tx)
             }
             Tx::Sweep | Tx::H1 => {
-                if !matches!(self.cfg.scen, Scen::Unilateral | Scen::Swept) {
+                if !matches!(self.cfg.scen, Scen::Unilateral | Scen::Swept | Scen::HtlcsSwept) {
                     return None;
                 }
-                let hc = f.hc1.clone()?;
-                let (ours, off, rec) = commitment_outputs(&hc, &f.c1, true);
+                let hc = if self.cfg.cp_close { f.cc1.clone()? } else { f.hc1.clone()? };
+                let (ours, off, rec) = commitment_outputs(&hc, &f.c1, !self.cfg.cp_close);
                 let txid = hc.compute_txid();
                 match t {
                     Tx::Sweep => Some(simple_tx(vec![OutPoint { txid, vout: ours? }], vec![(1000, unrelated_script(11))], 11)),
@@ -214,7 +223,7 @@ impl NodeModel {
         }
         let ds = s.depth(Tx::DoubleSpend) >= 100 && s.conf_height(Tx::Fund).is_none();
         let mutual = s.depth(Tx::Mutual) >= 100;
-        let uni = if matches!(self.cfg.scen, Scen::Unilateral | Scen::Swept) {
+        let uni = if matches!(self.cfg.scen, Scen::Unilateral | Scen::Swept | Scen::HtlcsSwept) {
             // all of the node's outputs swept: our output, both HTLC outputs and the second level
             let last = [Tx::Sweep, Tx::H1, Tx::H2].iter().map(|t| s.conf_height(*t)).collect::<Vec<_>>();
             if last.iter().all(|h| h.is_some()) {
@@ -283,7 +292,7 @@ impl Model for NodeModel {
     }
 
     fn name(&self) -> String {
-        format!("nodemc({:?},ops<={}{}{})", self.cfg.scen, self.cfg.max_ops, if self.cfg.monitors { ",monitors" } else { "" }, if self.cfg.cloud { ",cloud-store" } else { "" })
+        format!("nodemc({:?},ops<={}{}{}{}{})", self.cfg.scen, self.cfg.max_ops, if self.cfg.monitors { ",monitors" } else { "" }, if self.cfg.cloud { ",cloud-store" } else { "" }, if self.cfg.anchors { ",anchors" } else { "" }, if self.cfg.cp_close { ",counterparty-commitment" } else { "" })
     }
 
     fn init(&self) -> NState {
@@ -303,19 +312,26 @@ impl Model for NodeModel {
             }
             s.f = Some(f);
         }
-        if matches!(self.cfg.scen, Scen::Unilateral | Scen::Swept) {
+        if matches!(self.cfg.scen, Scen::Unilateral | Scen::Swept | Scen::HtlcsSwept) {
             // channel 1 funded, advanced, funding and the holder commitment confirmed
-            let f = fund_channel(s.w(), 1, false, true);
+            let f = fund_channel(s.w(), 1, self.cfg.anchors, true);
             s.ghost.ready.insert(1, true);
             let mut chain = chain;
             let b = make_block(&chain.tip().0, chain.height() + 1, 0, vec![f.funding_tx.clone()]);
             assert!(s.w().connect(&mut chain, b, Delivery::Compact).is_ok());
-            let b = make_block(&chain.tip().0, chain.height() + 1, 0, vec![f.hc1.clone().unwrap()]);
+            let commitment = if self.cfg.cp_close { f.cc1.clone().unwrap() } else { f.hc1.clone().unwrap() };
+            {
+                // the scenario is only meaningful if the harness can name all three outputs
+                let (ours, off, rec) = commitment_outputs(&commitment, &f.c1, !self.cfg.cp_close);
+                assert!(ours.is_some() && off.is_some() && rec.is_some(), "commitment outputs not identified: {:?} {:?} {:?}", ours, off, rec);
+            }
+            let b = make_block(&chain.tip().0, chain.height() + 1, 0, vec![commitment]);
             assert!(s.w().connect(&mut chain, b, Delivery::Compact).is_ok());
             s.chain = SimChain::new(chain.tip(), chain.height());
             s.f = Some(f);
-            if self.cfg.scen == Scen::Swept {
-                for (i, t) in [Tx::Sweep, Tx::H1, Tx::H2].iter().enumerate() {
+            if matches!(self.cfg.scen, Scen::Swept | Scen::HtlcsSwept) {
+                let pre: &[Tx] = if self.cfg.scen == Scen::Swept { &[Tx::Sweep, Tx::H1, Tx::H2] } else { &[Tx::H1, Tx::H2] };
+                for (i, t) in pre.iter().enumerate() {
                     let r = self.connect_block(&mut s, &[*t], 40 + i as u32);
                     assert!(r.is_ok(), "scenario block {:?}: {}", t, r.tag());
                 }
@@ -387,7 +403,7 @@ impl Model for NodeModel {
                 v.push(Op::Forget(1));
                 v.push(Op::New(1));
             }
-            Scen::Unilateral | Scen::Swept => {
+            Scen::Unilateral | Scen::Swept | Scen::HtlcsSwept => {
                 v.push(Op::Forget(1));
                 v.push(Op::New(1));
                 for t in [Tx::Sweep, Tx::H1, Tx::H2] {
@@ -590,8 +606,8 @@ pub struct NodeRun {
 pub fn configs(tier: Tier, monitors: bool) -> Vec<NodeCfg> {
     let mut v = configs_plain(tier, monitors);
     if monitors && tier == Tier::Thorough {
-        v.push(NodeCfg { scen: Scen::Lifecycle, max_ops: 5, monitors, cloud: true, perm: false });
-        v.push(NodeCfg { scen: Scen::Mutual, max_ops: 5, monitors, cloud: true, perm: false });
+        v.push(NodeCfg { scen: Scen::Lifecycle, max_ops: 5, monitors, cloud: true, perm: false, anchors: false, cp_close: false });
+        v.push(NodeCfg { scen: Scen::Mutual, max_ops: 5, monitors, cloud: true, perm: false, anchors: false, cp_close: false });
     }
     v
 }
@@ -599,25 +615,31 @@ pub fn configs(tier: Tier, monitors: bool) -> Vec<NodeCfg> {
 fn configs_plain(tier: Tier, monitors: bool) -> Vec<NodeCfg> {
     match (tier, monitors) {
         (Tier::Quick, false) => vec![
-            NodeCfg { scen: Scen::Mutual, max_ops: 5, monitors, cloud: false, perm: false },
-            NodeCfg { scen: Scen::DoubleSpend, max_ops: 5, monitors, cloud: false, perm: false },
-            NodeCfg { scen: Scen::Lifecycle, max_ops: 4, monitors, cloud: false, perm: false },
-            NodeCfg { scen: Scen::Ids, max_ops: 6, monitors, cloud: false, perm: false },
-            NodeCfg { scen: Scen::Swept, max_ops: 5, monitors, cloud: false, perm: false },
+            NodeCfg { scen: Scen::Mutual, max_ops: 5, monitors, cloud: false, perm: false, anchors: false, cp_close: false },
+            NodeCfg { scen: Scen::DoubleSpend, max_ops: 5, monitors, cloud: false, perm: false, anchors: false, cp_close: false },
+            NodeCfg { scen: Scen::Lifecycle, max_ops: 4, monitors, cloud: false, perm: false, anchors: false, cp_close: false },
+            NodeCfg { scen: Scen::Ids, max_ops: 6, monitors, cloud: false, perm: false, anchors: false, cp_close: false },
+            NodeCfg { scen: Scen::HtlcsSwept, max_ops: 4, monitors, cloud: false, perm: false, anchors: true, cp_close: true },
+            NodeCfg { scen: Scen::Swept, max_ops: 5, monitors, cloud: false, perm: false, anchors: false, cp_close: false },
         ],
         (Tier::Quick, true) => vec![
-            NodeCfg { scen: Scen::Lifecycle, max_ops: 4, monitors, cloud: false, perm: false },
-            NodeCfg { scen: Scen::Mutual, max_ops: 3, monitors, cloud: false, perm: false },
-            NodeCfg { scen: Scen::Lifecycle, max_ops: 3, monitors, cloud: true, perm: false },
-            NodeCfg { scen: Scen::Prunable, max_ops: 3, monitors, cloud: false, perm: true },
+            NodeCfg { scen: Scen::Lifecycle, max_ops: 4, monitors, cloud: false, perm: false, anchors: false, cp_close: false },
+            NodeCfg { scen: Scen::Mutual, max_ops: 3, monitors, cloud: false, perm: false, anchors: false, cp_close: false },
+            NodeCfg { scen: Scen::Lifecycle, max_ops: 3, monitors, cloud: true, perm: false, anchors: false, cp_close: false },
+            NodeCfg { scen: Scen::Prunable, max_ops: 3, monitors, cloud: false, perm: true, anchors: false, cp_close: false },
         ],
         (Tier::Thorough, _) => vec![
-            NodeCfg { scen: Scen::Lifecycle, max_ops: 7, monitors, cloud: false, perm: false },
-            NodeCfg { scen: Scen::Mutual, max_ops: 7, monitors, cloud: false, perm: false },
-            NodeCfg { scen: Scen::DoubleSpend, max_ops: 7, monitors, cloud: false, perm: false },
-            NodeCfg { scen: Scen::Unilateral, max_ops: 7, monitors, cloud: false, perm: false },
-            NodeCfg { scen: Scen::Swept, max_ops: 6, monitors, cloud: false, perm: false },
-            NodeCfg { scen: Scen::Ids, max_ops: 8, monitors, cloud: false, perm: false },
+            NodeCfg { scen: Scen::Lifecycle, max_ops: 7, monitors, cloud: false, perm: false, anchors: false, cp_close: false },
+            NodeCfg { scen: Scen::Mutual, max_ops: 7, monitors, cloud: false, perm: false, anchors: false, cp_close: false },
+            NodeCfg { scen: Scen::DoubleSpend, max_ops: 7, monitors, cloud: false, perm: false, anchors: false, cp_close: false },
+            NodeCfg { scen: Scen::Unilateral, max_ops: 7, monitors, cloud: false, perm: false, anchors: false, cp_close: false },
+            NodeCfg { scen: Scen::Swept, max_ops: 6, monitors, cloud: false, perm: false, anchors: false, cp_close: false },
+            NodeCfg { scen: Scen::Ids, max_ops: 8, monitors, cloud: false, perm: false, anchors: false, cp_close: false },
+            NodeCfg { scen: Scen::Unilateral, max_ops: 6, monitors, cloud: false, perm: false, anchors: true, cp_close: true },
+            NodeCfg { scen: Scen::HtlcsSwept, max_ops: 6, monitors, cloud: false, perm: false, anchors: true, cp_close: true },
+            NodeCfg { scen: Scen::HtlcsSwept, max_ops: 5, monitors, cloud: false, perm: false, anchors: false, cp_close: false },
+            NodeCfg { scen: Scen::Swept, max_ops: 5, monitors, cloud: false, perm: false, anchors: true, cp_close: false },
+            NodeCfg { scen: Scen::Swept, max_ops: 5, monitors, cloud: false, perm: false, anchors: false, cp_close: true },
         ],
     }
 }
